@@ -50,6 +50,27 @@ def replay(spec):
         if positives[i] and x < 0:
             lp = -math.inf
         want += lp
+    if spec.get("kind") == "wrapper":
+        # the posterior wrapper of the named interface, with a likelihood object that returns 0
+        import bioscrape.pid_interfaces as PI
+
+        class _LL:
+            def set_init_params(self, d):
+                pass
+
+            def py_log_likelihood(self):
+                return 0.0
+        obj = getattr(PI, spec["cls"])(names, M, prior)
+        setattr(obj, "LL_det" if spec["cls"] == "DeterministicInference" else "LL_stoch", _LL())
+        try:
+            got = float(obj.get_likelihood_function([theta[n] for n in names]))
+        except Exception as e:
+            return {"reproduced": True, "observed": "raised %s: %s" % (type(e).__name__, e), "expected": "a posterior value"}
+        if spec.get("region") == "inside":
+            bad = not (math.isfinite(got) and abs(got - want) <= 1e-7 * max(1.0, abs(want)))
+            return {"reproduced": bool(bad), "observed": got, "expected": want}
+        bad = not (got == -math.inf)
+        return {"reproduced": bool(bad), "observed": got, "expected": "-inf (scipy log-density %r)" % want}
     pid = PIDInterface(names, M, prior)
     try:
         got = pid.check_prior(theta)
